@@ -26,6 +26,14 @@ NextCount(n, o) == CASE o \in {"ok", "skip", "requeue", "startlong"} -> 0
 (* back-off), RequeueError(nil, 0) a plain success                                                                  *)
 NormO(o, d) == IF o = "requeueErr" /\ d = 0 THEN "err" ELSE IF o = "requeue" /\ d = 0 THEN "ok" ELSE o
 
+(* accounting (runtime metrics of a queue controller): every reconcile invocation is "processed"; it is counted as skipped *)
+(* (skip tag), crashed (any error or panic, also an error that carries a requeue interval) or requeued (a requeue request   *)
+(* with an interval and without an error) - or as nothing else (success, requeue request without interval)                   *)
+MetricOf(o, d) == CASE o = "skip" -> "skips"
+                    [] o \in {"err", "panic", "requeueErr"} -> "crashes"
+                    [] o = "requeue" /\ d # 0 -> "requeues"
+                    [] OTHER -> "none"
+
 CONSTANTS MaxLen, Delays
 VARIABLES n, hist
 vars == <<n, hist>>
